@@ -18,7 +18,17 @@ pub struct RunOut {
 
 /// Run the binary with `args` in `cwd`; returns exit status and the report it left in `cwd`.
 pub fn run_solstat(env: &Env, cwd: &Path, args: &[&str]) -> RunOut {
-    let out = Command::new(env.solstat_bin()).args(args).current_dir(cwd).env("NO_COLOR", "1").output();
+    run_solstat_tmp(env, cwd, args, None)
+}
+
+/// `tmpdir`: the child's TMPDIR (None = inherit; the default lives on another file system than /dev/shm)
+pub fn run_solstat_tmp(env: &Env, cwd: &Path, args: &[&str], tmpdir: Option<&Path>) -> RunOut {
+    let mut cmd = Command::new(env.solstat_bin());
+    cmd.args(args).current_dir(cwd).env("NO_COLOR", "1");
+    if let Some(t) = tmpdir {
+        cmd.env("TMPDIR", t);
+    }
+    let out = cmd.output();
     match out {
         Ok(o) => RunOut {
             code: o.status.code(),
@@ -53,33 +63,82 @@ pub fn binary_tree_case(env: &Env, tape: &[u8], st: &mut Stats, with: impl FnMut
 }
 
 pub fn binary_spec_case(env: &Env, spec: &[Entry], st: &mut Stats, mut with: impl FnMut(&[Entry], &Parsed, &BTreeMap<(String, String, i64), usize>, &mut Stats) -> Vec<Violation>) -> Vec<Violation> {
-    let spec: Vec<Entry> = spec.to_vec();
-    let pats = patterns::all();
-    let expected = match expected_of_tree(&spec, &pats) {
-        Ok(e) => e,
-        Err(_) => {
-            st.count("discarded_detector_panic_(C04_domain)");
-            return vec![];
+    // three runs in the *same* working directory: the tree; the tree with every eligible file's lines
+    // shifted by one (a report of mostly the same length with other content); about half of the files
+    // removed (a shorter report).  Each report must match its own tree.
+    let shifted = map_eligible(spec, &mut |_, bytes| {
+        let mut v = b"\n".to_vec();
+        v.extend_from_slice(bytes);
+        Some(v)
+    });
+    let mut k = 0usize;
+    let halved = map_eligible(spec, &mut |_, bytes| {
+        k += 1;
+        if k % 2 == 0 {
+            None
+        } else {
+            Some(bytes.to_vec())
         }
-    };
+    });
     let sc = Scratch::new("e2e");
-    let root = sc.path.join("tree");
     let cwd = sc.path.join("cwd");
-    std::fs::create_dir_all(&root).unwrap();
     std::fs::create_dir_all(&cwd).unwrap();
-    tree::materialize(&spec, &root);
-    let out = run_solstat(env, &cwd, &["--path", root.to_str().unwrap()]);
-    st.count("binary_runs");
-    let case = json!({"tree": tree::to_json(&spec)});
-    if out.code != Some(0) {
-        return vec![Violation::new("binary", "binary:nonzero-exit", format!("solstat exited with {:?}: {}", out.code, out.stderr), case)];
+    let pats = patterns::all();
+    for (round, variant) in [spec.to_vec(), shifted, halved].into_iter().enumerate() {
+        let expected = match expected_of_tree(&variant, &pats) {
+            Ok(e) => e,
+            Err(_) => {
+                st.count("discarded_detector_panic_(C04_domain)");
+                return vec![];
+            }
+        };
+        let root = sc.path.join(format!("tree{round}"));
+        std::fs::create_dir_all(&root).unwrap();
+        tree::materialize(&variant, &root);
+        let out = run_solstat(env, &cwd, &["--path", root.to_str().unwrap()]);
+        st.count("binary_runs");
+        let case = json!({"tree": tree::to_json(spec), "run_in_same_directory": round});
+        if out.code != Some(0) {
+            return vec![Violation::new("binary", "binary:nonzero-exit", format!("solstat exited with {:?}: {}", out.code, out.stderr), case)];
+        }
+        let report = match out.report {
+            Some(r) => String::from_utf8_lossy(&r).to_string(),
+            None => return vec![Violation::new("binary", "binary:no-report", "solstat wrote no solstat_report.md", case)],
+        };
+        let parsed = parse_report(&report);
+        let mut vs = with(&variant, &parsed, &expected, st);
+        if !vs.is_empty() {
+            for v in vs.iter_mut() {
+                if round > 0 {
+                    v.sig = format!("{}:after-earlier-run-in-same-directory", v.sig);
+                    v.case["run_in_same_directory"] = json!(round);
+                }
+            }
+            return vs;
+        }
     }
-    let report = match out.report {
-        Some(r) => String::from_utf8_lossy(&r).to_string(),
-        None => return vec![Violation::new("binary", "binary:no-report", "solstat wrote no solstat_report.md", case)],
-    };
-    let parsed = parse_report(&report);
-    with(&spec, &parsed, &expected, st)
+    vec![]
+}
+
+/// Map the content of every eligible file (None = drop the file); other entries unchanged.
+pub fn map_eligible(entries: &[Entry], f: &mut dyn FnMut(&str, &[u8]) -> Option<Vec<u8>>) -> Vec<Entry> {
+    let mut out = Vec::new();
+    for e in entries {
+        match &e.kind {
+            tree::Kind::File(b) => {
+                if tree::eligible(&e.name) {
+                    if let Some(nb) = f(&e.name, b) {
+                        out.push(Entry { name: e.name.clone(), class: e.class, kind: tree::Kind::File(nb) });
+                    }
+                } else {
+                    out.push(e.clone());
+                }
+            }
+            tree::Kind::Dir(c) => out.push(Entry { name: e.name.clone(), class: e.class, kind: tree::Kind::Dir(map_eligible(c, f)) }),
+            tree::Kind::Link(c) => out.push(Entry { name: e.name.clone(), class: e.class, kind: tree::Kind::Link(map_eligible(c, f)) }),
+        }
+    }
+    out
 }
 
 /// C11 end to end: entries of the report = union of per-file analyses of the tree.
